@@ -95,8 +95,8 @@ func inlinableDecl(fd *ast.FuncDecl) string {
 	if fd.Body == nil {
 		return "no body"
 	}
-	if fd.Type.TypeParams != nil {
-		return "generic"
+	if fd.Type.TypeParams != nil && fd.Recv != nil {
+		return "generic method"
 	}
 	if fd.Type.Params != nil {
 		for _, f := range fd.Type.Params.List {
@@ -328,7 +328,14 @@ func findSites(info *types.Info, helpers map[types.Object]*inlHelper, f *ast.Fil
 			return nil, nil
 		}
 		var id *ast.Ident
-		switch fx := c.Fun.(type) {
+		fun := c.Fun
+		switch ix := fun.(type) { // explicit instantiation f[T](..)
+		case *ast.IndexExpr:
+			fun = ix.X
+		case *ast.IndexListExpr:
+			fun = ix.X
+		}
+		switch fx := fun.(type) {
 		case *ast.Ident:
 			id = fx
 		case *ast.SelectorExpr:
@@ -428,7 +435,14 @@ func findSites(info *types.Info, helpers map[types.Object]*inlHelper, f *ast.Fil
 	called := map[*ast.Ident]bool{}
 	ast.Inspect(fd.Body, func(n ast.Node) bool {
 		if c, ok := n.(*ast.CallExpr); ok {
-			switch fx := c.Fun.(type) {
+			fun := c.Fun
+			switch ix := fun.(type) {
+			case *ast.IndexExpr:
+				fun = ix.X
+			case *ast.IndexListExpr:
+				fun = ix.X
+			}
+			switch fx := fun.(type) {
 			case *ast.Ident:
 				called[fx] = true
 			case *ast.SelectorExpr:
@@ -476,6 +490,37 @@ func genInline(p *packages.Package, s *inlSite, n int, src func(string) []byte) 
 	sig, ok := h.obj.Type().(*types.Signature)
 	if !ok {
 		return nil, fmt.Errorf("no signature")
+	}
+	// a generic helper: the call's instance gives the parameter and result types, and the type arguments that
+	// replace the type parameters in the body
+	typeArgs := map[types.Object]types.Type{}
+	if sig.TypeParams() != nil && sig.TypeParams().Len() > 0 {
+		fun := s.call.Fun
+		switch ix := fun.(type) {
+		case *ast.IndexExpr:
+			fun = ix.X
+		case *ast.IndexListExpr:
+			fun = ix.X
+		}
+		var cid *ast.Ident
+		switch fx := fun.(type) {
+		case *ast.Ident:
+			cid = fx
+		case *ast.SelectorExpr:
+			cid = fx.Sel
+		}
+		inst, okInst := cinfo.Instances[cid]
+		if cid == nil || !okInst || inst.TypeArgs == nil || inst.TypeArgs.Len() != sig.TypeParams().Len() {
+			return nil, fmt.Errorf("instance of the generic helper not resolved")
+		}
+		for i := 0; i < sig.TypeParams().Len(); i++ {
+			typeArgs[sig.TypeParams().At(i).Obj()] = inst.TypeArgs.At(i)
+		}
+		isig, okSig := inst.Type.(*types.Signature)
+		if !okSig {
+			return nil, fmt.Errorf("instance of the generic helper has no signature")
+		}
+		sig = isig
 	}
 	hsrc, csrc := src(h.filename), src(s.filename)
 	if hsrc == nil || csrc == nil {
@@ -1054,6 +1099,10 @@ func genInline(p *packages.Package, s *inlSite, n int, src func(string) []byte) 
 				if want != id.Name {
 					idReps = append(idReps, rep{off(id.Pos()), off(id.End()), want})
 				}
+				return true
+			}
+			if ta, isTP := typeArgs[o]; isTP && o != nil && defsOf(id) == nil {
+				idReps = append(idReps, rep{off(id.Pos()), off(id.End()), "(" + ts(ta) + ")"})
 				return true
 			}
 			if crossPkg && o != nil && o.Parent() == hscope && defsOf(id) == nil {
@@ -1806,4 +1855,134 @@ func genExprInline(p *packages.Package, s *inlSite, src func(string) []byte) ([]
 		return nil, fmt.Errorf("the result type is not importable by name in the calling file")
 	}
 	return []byte("(" + rt + ")(" + string(t) + ")"), nil
+}
+
+// hoistCondCalls prepares `if h(..) {` and `if !h(..) {` (h a new multi-statement helper with one boolean result) for
+// the inliner: the call is moved in front of the if, into a temporary, inside a block of its own.  The condition is
+// the first thing an if statement evaluates, so the order of evaluation does not change.  Only plain if statements
+// of a statement list are handled (not `else if`).
+func hoistCondCalls(pkgs []*packages.Package, src func(string) []byte) (map[string][]byte, []string) {
+	isNew := map[types.Object]bool{}
+	for _, hp := range pkgs {
+		if !smPkgs[hp.PkgPath] || hp.TypesInfo == nil {
+			continue
+		}
+		for i, f := range hp.Syntax {
+			if i >= len(hp.CompiledGoFiles) {
+				continue
+			}
+			fname := hp.CompiledGoFiles[i]
+			if strings.HasSuffix(fname, ".pb.go") || strings.HasSuffix(fname, ".pb.gw.go") {
+				continue
+			}
+			for _, d := range f.Decls {
+				fd, ok := d.(*ast.FuncDecl)
+				if !ok || fd.Name.Name == "init" || fd.Name.Name == "_" {
+					continue
+				}
+				key := declKey(hp.PkgPath, fd)
+				if baselineFuncs[key] || funcRenames[key] != "" || inlinableDecl(fd) != "" || exprHelperBody(fd) != nil {
+					continue
+				}
+				if o := hp.TypesInfo.Defs[fd.Name]; o != nil {
+					if sg, ok := o.Type().(*types.Signature); ok && sg.Results().Len() == 1 {
+						if b, ok := sg.Results().At(0).Type().Underlying().(*types.Basic); ok && b.Kind() == types.Bool {
+							isNew[o] = true
+						}
+					}
+				}
+			}
+		}
+	}
+	out := map[string][]byte{}
+	var notes []string
+	if len(isNew) == 0 {
+		return out, nil
+	}
+	n := 0
+	for _, p := range pkgs {
+		if !smPkgs[p.PkgPath] || p.TypesInfo == nil {
+			continue
+		}
+		info := p.TypesInfo
+		for i, f := range p.Syntax {
+			if i >= len(p.CompiledGoFiles) {
+				continue
+			}
+			fname := p.CompiledGoFiles[i]
+			text := src(fname)
+			if text == nil {
+				continue
+			}
+			type edit struct {
+				a, e int
+				text string
+			}
+			var edits []edit
+			off := func(pos token.Pos) int { return p.Fset.Position(pos).Offset }
+			visit := func(list []ast.Stmt) {
+				for _, st := range list {
+					iff, ok := st.(*ast.IfStmt)
+					if !ok || iff.Init != nil {
+						continue
+					}
+					cond := ast.Unparen(iff.Cond)
+					neg := ""
+					if u, ok := cond.(*ast.UnaryExpr); ok && u.Op == token.NOT {
+						neg = "!"
+						cond = ast.Unparen(u.X)
+					}
+					c, ok := cond.(*ast.CallExpr)
+					if !ok {
+						continue
+					}
+					var id *ast.Ident
+					switch fx := c.Fun.(type) {
+					case *ast.Ident:
+						id = fx
+					case *ast.SelectorExpr:
+						id = fx.Sel
+					}
+					if id == nil || !isNew[info.Uses[id]] {
+						continue
+					}
+					n++
+					tmp := fmt.Sprintf("inlc%d", n)
+					edits = append(edits, edit{off(iff.Pos()), off(iff.Cond.End()), "{\n" + tmp + " := " + string(text[off(c.Pos()):off(c.End())]) + "\nif " + neg + tmp})
+					edits = append(edits, edit{off(iff.End()), off(iff.End()), "\n}"})
+				}
+			}
+			ast.Inspect(f, func(nd ast.Node) bool {
+				switch x := nd.(type) {
+				case *ast.BlockStmt:
+					visit(x.List)
+				case *ast.CaseClause:
+					visit(x.Body)
+				case *ast.CommClause:
+					visit(x.Body)
+				}
+				return true
+			})
+			if len(edits) == 0 {
+				continue
+			}
+			sort.SliceStable(edits, func(i, j int) bool { return edits[i].a > edits[j].a })
+			okF := true
+			for i := 1; i < len(edits); i++ {
+				if edits[i].e > edits[i-1].a {
+					okF = false
+				}
+			}
+			if !okF {
+				continue
+			}
+			nb := append([]byte{}, text...)
+			for _, e := range edits {
+				nb = append(append(append([]byte{}, nb[:e.a]...), []byte(e.text)...), nb[e.e:]...)
+			}
+			out[fname] = nb
+			notes = append(notes, fmt.Sprintf("helper calls in %d if-conditions of %s moved in front of the if", len(edits)/2, fname[strings.LastIndex(fname, "/")+1:]))
+		}
+	}
+	return out, notes
 }
